@@ -1414,3 +1414,7 @@ TABLE["C14"] += [
     N("submodule-files-through-pathlib-with-encodings",
       (PW, "        with open(module_name + \".cpp\", \"w\", encoding=\"UTF-8\") as f:\n            f.write(cc_content)", "        Path(module_name + \".cpp\").write_text(cc_content, encoding=\"UTF-8\")")),
 ]
+TABLE["C15"] += [
+    B("ignore-entries-matched-as-prefixes", {"X5"},
+      (PW, "        if cpp_class in self.ignore_classes:\n            return \"\"\n        if instantiated_class.parent_class:", "        if any(cpp_class.startswith(entry) for entry in self.ignore_classes if entry):\n            return \"\"\n        if instantiated_class.parent_class:")),
+]
